@@ -31,9 +31,9 @@ Honest(L) == [i \in 1..L |-> [by |-> i, key |-> i, ctx |-> "a", covers |-> L - i
 
 Ops == {"none", "transit", "mutbody", "mutsig", "wrongpeer", "replayold",
         "outerflip", "outersigflip", "stripouter",
-        "innerflip", "innersigflip", "splicetime", "spliceorigin", "reattribute", "duprec", "reorder",
+        "innerflip", "innersigflip", "splicetime", "spliceorigin", "reattribute", "forgeknown", "duprec", "reorder",
         "skipto", "claimdirect"}
-NeedsDepth(op) == op \in {"innerflip", "innersigflip", "splicetime", "spliceorigin", "reattribute", "duprec", "reorder", "skipto"}
+NeedsDepth(op) == op \in {"innerflip", "innersigflip", "splicetime", "spliceorigin", "reattribute", "forgeknown", "duprec", "reorder", "skipto"}
 
 (* The chain the victim receives and who delivers it, per operator.  `d` is the depth (2..L) of the     *)
 (* record the adversary (router 1, re-signing its own outer record) tampers with.                       *)
@@ -50,6 +50,8 @@ Received(L, op, d) ==
     [] op = "splicetime" -> Tamper(L, d, LAMBDA r : [r EXCEPT !.ctx = "b"])       \* same router's record for another stamp
     [] op = "spliceorigin" -> Tamper(L, d, LAMBDA r : [r EXCEPT !.ctx = "c"])     \* ... for another origin
     [] op = "reattribute" -> Tamper(L, d, LAMBDA r : [r EXCEPT !.by = 7])          \* names a router that did not sign
+    [] op = "forgeknown" -> \* a fresh record naming a router the victim already knows (its other peer), made and signed with the adversary's own key
+         Tamper(L, d, LAMBDA r : [r EXCEPT !.by = OtherPeer, !.key = 1])
     [] op = "duprec" -> \* record d twice: every record above the copy now has one record more below it than it signed
          [i \in 1..(L + 1) |-> IF i = 1 THEN Fresh1(L) ELSE IF i <= d THEN Honest(L)[i] ELSE Honest(L)[i - 1]]
     [] op = "reorder" -> \* records d and d+1 swapped (each keeps what it genuinely signed)
@@ -92,6 +94,7 @@ Case(L, op, d, seen) ==
   /\ (NeedsDepth(op) => d \in 2..L) /\ (~NeedsDepth(op) => d = 0)
   /\ (op \in {"outerflip", "outersigflip", "stripouter", "claimdirect"} => L >= 1)
   /\ (op = "reorder" => d < L)
+  /\ (op = "forgeknown" => d = 2)       \* directly below the adversary's own record: nothing else in the chain is disturbed
   /\ act' = [name |-> "case", len |-> L, op |-> op, depth |-> d, seen |-> seen,
              accept |-> ImplAccept(L, op, d), propaccept |-> PropAccept(L, op, d),
              path |-> IF PropAccept(L, op, d) THEN Path(L, op, d) ELSE <<>>,
